@@ -103,7 +103,7 @@ Definition check_sides (kd : kind) (st : sstate) (o : op) (now : obs) (ev : list
   (if ss_cur st then nodes_eqb (ob_a now) (ob_a (ss_obs st)) else nodes_eqb (ob_b now) (ob_b (ss_obs st))) &&
   forallb (elem_ok kd o (negb (ss_cur st)) (ss_next st) ev (ob_a (ss_obs st)) (ob_b (ss_obs st))) (ob_a now) &&
   forallb (elem_ok kd o (ss_cur st) (ss_next st) ev (ob_b (ss_obs st)) (ob_a (ss_obs st))) (ob_b now) &&
-  (if ss_cur st then removed_ok o (ob_b (ss_obs st)) (ob_b now) else removed_ok o (ob_a (ss_obs st)) (ob_a now)).
+  (if ss_cur st then removed_ok kd o (ob_b (ss_obs st)) (ob_b now) else removed_ok kd o (ob_a (ss_obs st)) (ob_a now)).
 
 Lemma check_step_noswap kd st o now ev :
   o <> OSwap -> check_step kd st o now ev = check_common kd st o now ev && check_sides kd st o now ev.
